@@ -109,6 +109,12 @@ def cases(tier, seed):
     for D in Ds[:4]:
         for rep in range(reps):
             out.append({'kind': 'mixedprec', 'seed': case_seed('C02', seed, 'mixedprec', D, rep), 'params': {'D': D, 'P': 1 + (D + rep) % 3}})
+    # array-valued bases and exponents (b ** x, x ** e with b, e plain arrays of any integer / float width and any broadcastable
+    # shape, also with more axes than x and with a single element): element by element the result is what the scalar spelling gives
+    for D in Ds[:4]:
+        for rep in range(2 * reps):
+            for side in ('base', 'exponent'):
+                out.append({'kind': 'powarr', 'seed': case_seed('C02', seed, 'powarr', side, D, rep), 'params': {'D': D, 'P': 1 + (D + rep) % 3, 'side': side}})
     return out
 
 
@@ -117,7 +123,7 @@ def required():
     for op in OPS:
         for form in ('binary', 'reflected', 'inplace'):
             req.append('%s:%s' % (op, form))
-    return req + ['pow_pyint', 'pow_npint', 'pow_float', 'rpow_float', 'pow_utpm']
+    return req + ['pow_pyint', 'pow_npint', 'pow_float', 'rpow_float', 'pow_utpm', 'powarr:base', 'powarr:exponent']
 
 
 def _mk_other(rng, kind, shape, data, divisor):
@@ -288,6 +294,8 @@ def run_case(ctx, case):
         return _pow(ctx, case)
     if case['kind'] == 'mixedprec':
         return _mixedprec(ctx, case)
+    if case['kind'] == 'powarr':
+        return _powarr(ctx, case)
     p = case['params']
     rng = gen.rng_of(case)
     op, form, kind, rel, D, P, data = p['op'], p['form'], p['other'], p['rel'], p['D'], p['P'], p['data']
@@ -398,6 +406,65 @@ def run_case(ctx, case):
     ctx.ok(label, (op, form, kind, rel, D, P, data, p.get('odata') if other_is_utpm else None, p.get('layout')), noise=worst,
            sample={'op': op, 'form': form, 'other': kind, 'rel': rel, 'D': D, 'P': P, 'xshape': xs, 'oshape': os_, 'data': data,
                    'max_err_over_majorant': worst} if rng.random() < 0.01 else None)
+
+
+def _powarr(ctx, case):
+    """b ** x and x ** e with a plain array b / e: NumPy broadcasts the array against x_0, so must the polynomial result; element
+    (i) of it is the scalar spelling float(b_i) ** x_j resp. x_j ** float(e_i) (decided against the mpmath oracle by the `pow` kind)."""
+    p = case['params']; rng = gen.rng_of(case)
+    D, P, side = p['D'], p['P'], p['side']
+    xs = [(3,), (2, 3), (1,), (), (3, 1)][int(rng.integers(5))]
+    cplx = rng.random() < 0.25
+    xd = gen.series_data(rng, D, P, xs, 'R' if side == 'base' else 'pos', 'random', cplx and side == 'base')
+    # the shape of the array: that of x, a broadcastable one, one with more axes, a single element with more axes than x
+    shapes = [xs, (1,) * len(xs), (2,) + xs, (1, 1) + xs, (1,) * (len(xs) + 1), (1, 1), xs[-1:]]
+    ashp = shapes[int(rng.integers(len(shapes)))]
+    n = int(np.prod(ashp, dtype=int))
+    if side == 'base':
+        dt = [np.uint8, np.int8, np.int16, np.int64, np.float16, np.float32, np.float64][int(rng.integers(7))]
+        vals = rng.integers(2, 8, size=n).astype(float)
+        if np.dtype(dt).kind == 'f':
+            vals = vals + 0.5
+        if cplx and np.dtype(dt).kind != 'u' and rng.random() < 0.5:
+            vals = -vals                    # a negative real base of a complex polynomial: the principal value
+        arr = vals.reshape(ashp).astype(dt)
+        call = lambda x: arr ** x
+        one = lambda b, xe: (complex(float(b)) if (cplx and float(b) < 0) else float(b)) ** xe
+    else:
+        dt = [np.int8, np.int64, np.float32, np.float64, np.float64][int(rng.integers(5))]
+        vals = rng.integers(-3, 5, size=n).astype(float)
+        if np.dtype(dt).kind == 'f' and rng.random() < 0.7:
+            vals = vals + 0.5
+        arr = vals.reshape(ashp).astype(dt)
+        call = lambda x: x ** arr
+        one = lambda e, xe: xe ** (int(e) if float(e) == int(e) else float(e))
+    mech = 'powarr:' + side
+    info = {'side': side, 'D': D, 'P': P, 'xshape': list(xs), 'array_shape': list(ashp), 'array_dtype': str(np.dtype(dt)), 'x_dtype': str(xd.dtype)}
+    try:
+        want_shape = np.broadcast_shapes(xs, ashp)
+        r = call(UTPM(xd.copy()))
+    except Exception as ex:
+        ctx.violation(mech + ':raises:' + type(ex).__name__, dict(info, error=repr(ex)[:200])); return
+    if not isinstance(r, UTPM) or r.data.shape != (D, P) + tuple(want_shape):
+        ctx.violation(mech + ':shape', dict(info, got=list(getattr(getattr(r, 'data', None), 'shape', ())), want=[D, P] + list(want_shape))); return
+    xb = np.broadcast_to(xd.reshape((D, P) + (1,) * (len(want_shape) - len(xs)) + tuple(xs)), (D, P) + tuple(want_shape)); ab = np.broadcast_to(arr, want_shape)
+    worst = 0.0
+    for idx in (list(np.ndindex(*want_shape)) if want_shape else [()]):
+        xe = UTPM(np.ascontiguousarray(xb[(slice(None), slice(None)) + idx]).reshape(D, P).copy())
+        try:
+            ref = one(ab[idx], xe).data
+        except Exception as ex:
+            ctx.skip('powarr:scalar-spelling-raises', repr(ex)[:80]); return
+        got = r.data[(slice(None), slice(None)) + idx]
+        if not np.all(np.isfinite(ref)):
+            continue
+        for pp in range(P):
+            sc = np.max(np.abs(ref[:, pp])) + 1e-300
+            e = float(np.max(np.abs(got[:, pp] - ref[:, pp])) / sc) if np.all(np.isfinite(got[:, pp])) else float('inf')
+            worst = max(worst, e)
+            if not (e <= 1e-11):
+                ctx.violation(mech + ':value', dict(info, index=list(idx), direction=pp, relative_error=e, array_entry=float(ab[idx]))); return
+    ctx.ok(mech, ('powarr', side, D, P, len(xs), len(ashp), str(np.dtype(dt)), cplx), noise=worst)
 
 
 def _pow(ctx, case):
